@@ -248,7 +248,10 @@ def score_fn(model):
     """Score table lookup: CONFIG['scores'][sig][repetition index]; may fail when told to."""
     table = CONFIG["scores"][model.sig]
     v = table[model.rep % len(table)]
-    if isinstance(v, list):          # dyadic float encoded as [numerator, denominator]
+    if isinstance(v, dict):          # an exact rational score
+        from fractions import Fraction
+        v = Fraction(v["frac"][0], v["frac"][1])
+    elif isinstance(v, list):        # dyadic float encoded as [numerator, denominator]
         v = v[0] / v[1]
     elif CONFIG.get("numpy_scores") and isinstance(v, int) and -2 ** 62 < v < 2 ** 62:
         v = numpy.int64(v)           # what e.g. numpy.sum over an integer array returns
